@@ -12,7 +12,6 @@ import (
 	"bytes"
 	"fmt"
 
-	"gitlab.com/gomidi/midi/v2"
 	"gitlab.com/gomidi/midi/v2/internal/verifh/engine"
 	"gitlab.com/gomidi/midi/v2/internal/verifh/refsmf"
 	sp "gitlab.com/gomidi/midi/v2/internal/verifh/smfspace"
@@ -104,87 +103,18 @@ func runSweepCase(c sweepCase) {
 	}
 }
 
-// sweep enumerates one scalar dimension completely on a fixed small file;
-// part selects a slice of the work so that it can be spread over processes.
+// sweep runs the shared scalar and value sweeps (smfspace) through the round trip.
 func sweep(part, parts int) {
-	al := sp.FullAlphabet()
-	base := []sp.Op{
-		{Kind: sp.OpAdd, D: 0, M1: 9},
-		{Kind: sp.OpAdd, D: 1, M1: 0},
-		{Kind: sp.OpAdd, D: 130, M1: 1},
-		{Kind: sp.OpClose, D: 2},
-		{Kind: sp.OpSMFAdd},
-	}
-	// value sweeps: every channel status, every meta type, track counts
 	for i, c := range sp.ValueSweeps() {
 		if i%parts == part {
 			runSweepCase(sweepCase{c.Cfg, c.Ops, c.Al, c.Name, c.Val})
 			ctx.Add("sweep_values", 1)
 		}
 	}
-	// all metric resolutions 1..32767
-	for r := 1 + part; r <= 32767; r += parts {
-		for _, nors := range []bool{false, true} {
-			runSweepCase(sweepCase{sp.Cfg{Ctor: 0, NoRS: nors, TF: smf.MetricTicks(r)}, base, al, "resolution", r})
-		}
-		ctx.Add("sweep_resolutions", 1)
-	}
-	if part == 0 {
-		// all 4 SMPTE rates x 256 subframe values
-		for _, fps := range []uint8{24, 25, 29, 30} {
-			for sub := 0; sub < 256; sub++ {
-				runSweepCase(sweepCase{sp.Cfg{Ctor: 1, TF: smf.TimeCode{FramesPerSecond: fps, SubFrames: uint8(sub)}}, base, al, "smpte", fmt.Sprintf("%d/%d", fps, sub)})
-				ctx.Add("sweep_smpte_divisions", 1)
-			}
-		}
-	}
-	if part == 1%parts {
-		// delta boundaries over the full uint32 range, +-1
-		bounds := []uint64{0, 1, 127, 128, 16383, 16384, 2097151, 2097152, 0x0FFFFFFF, 0x10000000, 0x7FFFFFFF, 0x80000000, 0xFFFFFFFF}
-		seenD := map[uint32]bool{}
-		for _, b := range bounds {
-			for _, off := range []int64{-1, 0, 1} {
-				v := int64(b) + off
-				if v < 0 || v > 0xFFFFFFFF || seenD[uint32(v)] {
-					continue
-				}
-				seenD[uint32(v)] = true
-				for _, pos := range []int{0, 1, 2} { // first event, later event, end-of-track delta
-					ops := []sp.Op{{Kind: sp.OpAdd, D: 3, M1: 0}, {Kind: sp.OpAdd, D: 4, M1: 1}, {Kind: sp.OpClose, D: 5}, {Kind: sp.OpSMFAdd}}
-					ops[pos].D = uint32(v)
-					for _, nors := range []bool{false, true} {
-						runSweepCase(sweepCase{sp.Cfg{Ctor: 0, NoRS: nors, TF: smf.MetricTicks(480)}, ops, al, "delta", v})
-					}
-				}
-				ctx.Add("sweep_deltas", 1)
-			}
-		}
-	}
-	// payload lengths 0..300 and the VLQ width boundaries, for meta text, sysex and escape
-	lens := []int{}
-	for i := 0; i <= 300; i++ {
-		lens = append(lens, i)
-	}
-	lens = append(lens, 16383, 16384, 2097151, 2097152)
-	for li := part; li < len(lens); li += parts {
-		n := lens[li]
-		p := make([]byte, n)
-		for j := range p {
-			p[j] = byte(j*7+1) & 0x7F
-		}
-		alx := []sp.Msg{
-			{"TextN", smf.MetaText(string(p))},
-			{"SysExN", smf.Message(midi.SysEx(p))},
-			{"EscapeN", smf.Message(append([]byte{0xF7}, p...))},
-			{"UndefN", smf.MetaUndefined(0x60, p)},
-			{"NoteOn", midi.NoteOn(2, 1, 2)},
-		}
-		for m := 0; m < 4; m++ {
-			ops := []sp.Op{{Kind: sp.OpAdd, D: 0, M1: 4}, {Kind: sp.OpAdd, D: 1, M1: m}, {Kind: sp.OpAdd, D: 0, M1: 4}, {Kind: sp.OpSMFAdd}}
-			runSweepCase(sweepCase{sp.Cfg{Ctor: 0, TF: smf.MetricTicks(960)}, ops, alx, "payload-len", n})
-		}
-		ctx.Add("sweep_payload_lengths", 1)
-	}
+	sp.ScalarSweeps(part, parts, 0xFFFFFFFF, func(c sp.SweepCase) {
+		runSweepCase(sweepCase{c.Cfg, c.Ops, c.Al, c.Name, c.Val})
+		ctx.Add("sweep_"+c.Name, 1)
+	})
 }
 
 // fromRead turns configurations into "start from a value read from a file".
@@ -260,7 +190,7 @@ func main() {
 	ctx.NontrivialN(rs)
 	ctx.Guard(states > 10000, "state space suspiciously small: %d", states)
 	ctx.Guard(rs > 100, "running status elision never exercised: %d", rs)
-	ctx.Guard(ctx.GetInt("sweep_resolutions") == 32767, "resolution sweep incomplete")
+	ctx.Guard(ctx.GetInt("sweep_resolution") == 2*32767, "resolution sweep incomplete")
 	ctx.Finish("explicit-state BFS over API histories (state = reference value x observed value, deduplicated by hash); every transition is executed on the real smf.SMF; non-trivial = written files in which running-status elision could apply; plus complete sweeps of resolution, SMPTE division, delta boundaries and payload lengths")
 }
 
